@@ -18,6 +18,7 @@ import IbicusModel.Lemmas.C06Years
 import IbicusModel.Lemmas.C06Except
 import IbicusModel.Lemmas.C06Isimip
 import IbicusModel.Lemmas.C06Months
+import IbicusModel.Lemmas.C06Detrend
 import IbicusModel.Lemmas.IsimipModel
 import IbicusModel.Lemmas.GenDebiasers
 
@@ -689,11 +690,12 @@ theorem isimip_window_pointwise_orderfree_partial (c : Cfg) (fam : IsiFamily) (o
 open Model.Isimip in
 /-- **ISIMIP running-window loop** (`Model.Isimip.winFn` in `Skeleton.applyLocationRW`), partial: `detrending = False`,
     no bound / threshold pair, the same oracle decisions for every window, tie-free `cm_future`.
-    FULL STATEMENT (not proved): the same for every configuration, with `α = Rat × Int` (value, year) —
-    missing: step 3 (`dailyTrend` is an element-wise map of (value, year) over the annual means and `np.unique(years)`,
-    both order-free — needs `uniqueYears_perm`, `yearlyMeans_perm`), step 4 (`randomizeMasked` = `sortLike` of the sorted
-    draws: rank based, equivariant under the same draws for tie-free masked values), and oracles (`linregress` p-value,
-    KS decision) as functions of the window samples up to order instead of the window's index list. -/
+    With detrending: `isimip_rw_detrending_time_order_equivariant_partial` (dated pairs).
+    FULL STATEMENT (not proved): the same for every configuration —
+    missing: step 4 (`randomizeMasked` = `sortLike` of the sorted draws: rank based, equivariant under the same draws for
+    tie-free masked values; exercised by the seeded `ISIMIP-pr` cases of the harness' oracle), and the oracles
+    (`linregress` p-value, KS decision) as functions of the window samples up to order instead of the window's index list
+    (here: the same decisions for every window). -/
 theorem isimip_rw_time_order_equivariant_partial (c : Cfg) (fam : IsiFamily) (o : Oracles) (drw : List Nat → Draws)
     (yearsO yearsH yearsF : List Int) (hd : c.detrending = false)
     (hl : (c.hasLowerBound && c.hasLowerThreshold) = false) (hu : (c.hasUpperBound && c.hasUpperThreshold) = false) :
@@ -729,6 +731,152 @@ theorem isimip_months_time_order_equivariant_partial (c : Cfg) (fam : IsiFamily)
     applyLocationMonths_congr_nodup _ _ hff _ _ _ _ _ _ (take_perm_nodup fut pF hpF hnd)]
   exact equivariance_months_E _ (isimipCtx c fam o) rankRead (fun _ _ _ _ _ _ => rfl)
     ⟨fun ob ob' h h' x x' ho hh hx => isimipCtx_perm c fam o ho hh hx, fun m x x' hx => rankRead_perm m hx⟩
+    mO mH mF obs hist fut pO pH pF hpO hpH hpF hlO hlH hlF hr
+
+/-! ### ISIMIP with detrending (steps 3 and 7 active): dated samples (value, year)
+
+  The guard is on the *detrended* future window samples (that is what step 6 ranks). -/
+
+open Model.Isimip in
+/-- the context map with detrending: remove the trend of the step's year, read the mapped value at the rank of the
+    detrended value, add the trend back; the year is kept -/
+def isimipDG (c : Cfg) (o : Oracles) (m : List Rat) (x : List Dated) (p : Dated) : Dated :=
+  (rankRead m (detr c o.sigF x) (p.1 - trendOf c o.sigF x p.2) + trendOf c o.sigF x p.2, p.2)
+
+open Model.Isimip in
+def isimipDCtx (c : Cfg) (fam : IsiFamily) (o : Oracles) (ob h x : List Dated) : Except String (List Rat) :=
+  isimipCtx c fam o (detr c o.sigO ob) (detr c o.sigH h) (detr c o.sigF x)
+
+open Model.Isimip in
+/-- `_apply_on_window` on dated samples as a window function of the skeleton (values re-attached to their years) -/
+def isimipWinFnD (c : Cfg) (fam : IsiFamily) (o : Oracles) (d : Draws) : WinFn Dated :=
+  fun ob h x _ _ _ => (isimipWinD c fam o d ob h x).map (fun r => r.zip (x.map Prod.snd))
+
+theorem zip_map_snd {α β} (x : List (α × β)) (g : α × β → α) :
+    (x.map g).zip (x.map Prod.snd) = x.map (fun p => (g p, p.2)) := by
+  induction x with
+  | nil => rfl
+  | cons a t ih => simp [ih]
+
+open Model.Isimip in
+/-- **`_apply_on_window` with detrending is an element-wise map of (value, year) over an order-free context**
+    (no bound / threshold pair; tie-free detrended `cm_future`) -/
+theorem isimip_window_detrending_pointwise (c : Cfg) (fam : IsiFamily) (o : Oracles) (d : Draws) (ob h x : List Dated)
+    (hd : c.detrending = true)
+    (hl : (c.hasLowerBound && c.hasLowerThreshold) = false) (hu : (c.hasUpperBound && c.hasUpperThreshold) = false)
+    (hF : (detr c o.sigF x).Nodup) (io ih ix : List Nat) :
+    isimipWinFnD c fam o d ob h x io ih ix = (isimipDCtx c fam o ob h x).map (fun m => x.map (isimipDG c o m x)) := by
+  unfold isimipWinFnD isimipDCtx isimipCtx
+  rw [isimipWinD_detrending c fam o d ob h x hd hl hu, step5_eq]
+  cases step5Ctx c o (detr c o.sigO ob) (detr c o.sigH h) (detr c o.sigF x) with
+  | error e => rfl
+  | ok T =>
+    simp only [Except.map, Except.bind]
+    rw [isimip_step6_pointwise_orderfree c fam o _ _ _ _ hF]
+    cases step6Ctx c fam o (detr c o.sigO ob) ((detr c o.sigO ob).map T) (detr c o.sigH h) (detr c o.sigF x) with
+    | error e => rfl
+    | ok m =>
+      simp only [Except.map]
+      congr 1
+      have : (detr c o.sigF x).map (fun a => m.getD (rankLt (detr c o.sigF x) a) 0) =
+          x.map (fun p => rankRead m (detr c o.sigF x) (p.1 - trendOf c o.sigF x p.2)) := by
+        unfold detr rankRead
+        rw [List.map_map]; rfl
+      rw [this, zipWith_maps, zip_map_snd]
+      rfl
+
+open Model.Isimip in
+/-- tie to `Model.Isimip.winFn` (values and years indexed by the same index lists): on the window samples of the
+    zipped series the dated window function is the model's -/
+theorem isimipWinD_eq_winFn (c : Cfg) (fam : IsiFamily) (o : Oracles) (d : Draws) (obs H F : List Rat)
+    (yO yH yF : List Int) (iO iH iF : List Nat)
+    (hlO : obs.length = yO.length) (hlH : H.length = yH.length) (hlF : F.length = yF.length)
+    (hvO : ∀ j ∈ iO, j < obs.length) (hvH : ∀ j ∈ iH, j < H.length) (hvF : ∀ j ∈ iF, j < F.length) :
+    isimipWinD c fam o d (take (obs.zip yO) iO) (take (H.zip yH) iH) (take (F.zip yF) iF) =
+      winFn c fam (fun _ => o) (fun _ => d) yO yH yF (take obs iO) (take H iH) (take F iF) iO iH iF := by
+  unfold isimipWinD winFn
+  have hf : ∀ (x : List Rat) (y : List Int) (idx : List Nat), x.length = y.length → (∀ j ∈ idx, j < x.length) →
+      (take (x.zip y) idx).map Prod.fst = take x idx ∧ (take (x.zip y) idx).map Prod.snd = take y idx := by
+    intro x y idx hl hv
+    rw [take_zip x y idx hl hv]
+    have hlen : (take x idx).length = (take y idx).length := by
+      rw [take_length x idx hv, take_length y idx (fun j hj => hl ▸ hv j hj)]
+    exact ⟨List.map_fst_zip (le_of_eq hlen), List.map_snd_zip (le_of_eq hlen.symm)⟩
+  rw [(hf obs yO iO hlO hvO).1, (hf obs yO iO hlO hvO).2, (hf H yH iH hlH hvH).1, (hf H yH iH hlH hvH).2,
+    (hf F yF iF hlF hvF).1, (hf F yF iF hlF hvF).2]
+
+open Model.Isimip in
+theorem isimipD_orderFree (c : Cfg) (fam : IsiFamily) (o : Oracles) :
+    OrderFreeE (isimipDCtx c fam o) (isimipDG c o) := by
+  constructor
+  · intro ob ob' h h' x x' ho hh hx
+    exact isimipCtx_perm c fam o (detr_perm c o.sigO ho) (detr_perm c o.sigH hh) (detr_perm c o.sigF hx)
+  · intro m x x' hx
+    funext p
+    unfold isimipDG
+    rw [trendOf_perm c o.sigF hx, rankRead_perm m (detr_perm c o.sigF hx)]
+
+open Model.Isimip in
+/-- **ISIMIP running-window loop with detrending**, partial: no bound / threshold pair (step 4 inactive — no random draws),
+    the same oracle decisions (`linregress` significance, KS) for every window, every detrended future window sample
+    tie-free.  Series are dated pairs (value, year).  Either both runs succeed and the result is permuted like
+    `cm_future` (every step keeping its year), or both raise the same error. -/
+theorem isimip_rw_detrending_time_order_equivariant_partial (c : Cfg) (fam : IsiFamily) (o : Oracles) (d : Draws)
+    (hd : c.detrending = true)
+    (hl : (c.hasLowerBound && c.hasLowerThreshold) = false) (hu : (c.hasUpperBound && c.hasUpperThreshold) = false)
+    (L S h : Int) (dO dH dF : List Int) (obs hist fut : List Dated) (pO pH pF : List Nat)
+    (hpO : pO.Perm (List.range obs.length)) (hpH : pH.Perm (List.range hist.length))
+    (hpF : pF.Perm (List.range fut.length))
+    (hlO : dO.length = obs.length) (hlH : dH.length = hist.length) (hlF : dF.length = fut.length)
+    (hS : S = 2 * h + 1) (hh : 0 ≤ h) (hSL : S ≤ L) (hr : ∀ d ∈ dF, 1 ≤ d ∧ d ≤ 366)
+    (hnd : ∀ cc ∈ useCenters S dF, (detr c o.sigF (take fut (idxWindow L dF cc))).Nodup) :
+    (∃ out, applyLocationRW (isimipWinFnD c fam o d) L S dO dH dF obs hist fut = .ok out ∧
+      applyLocationRW (isimipWinFnD c fam o d) L S (take dO pO) (take dH pH) (take dF pF) (take obs pO) (take hist pH)
+        (take fut pF) = .ok (take out pF)) ∨
+    (∃ e, applyLocationRW (isimipWinFnD c fam o d) L S dO dH dF obs hist fut = .error e ∧
+      applyLocationRW (isimipWinFnD c fam o d) L S (take dO pO) (take dH pH) (take dF pF) (take obs pO) (take hist pH)
+        (take fut pF) = .error e) := by
+  let f' : WinFn Dated := fun ob h x _ _ _ => (isimipDCtx c fam o ob h x).map (fun m => x.map (isimipDG c o m x))
+  have hff : ∀ ob h x io ih ix, (detr c o.sigF x).Nodup → isimipWinFnD c fam o d ob h x io ih ix = f' ob h x io ih ix :=
+    fun ob h x io ih ix hx => isimip_window_detrending_pointwise c fam o d ob h x hd hl hu hx io ih ix
+  have hvF := perm_valid pF hpF
+  have hpFd : pF.Perm (List.range dF.length) := hlF ▸ hpF
+  have hnd' : ∀ cc ∈ useCenters S (take dF pF),
+      (detr c o.sigF (take (take fut pF) (idxWindow L (take dF pF) cc))).Nodup := by
+    intro cc hcc
+    rw [useCenters_perm S _ _ (take_perm dF pF hpFd)] at hcc
+    unfold idxWindow
+    exact (detr_perm c o.sigF (window_sample_perm fut dF _ pF hlF.symm hpF)).nodup_iff.mpr (hnd cc hcc)
+  rw [applyLocationRW_congr_on _ f' _ hff L S dO dH dF obs hist fut hnd,
+    applyLocationRW_congr_on _ f' _ hff L S _ _ _ _ _ _ hnd']
+  exact equivariance_RW_E f' (isimipDCtx c fam o) (isimipDG c o) (fun _ _ _ _ _ _ => rfl) (isimipD_orderFree c fam o)
+    L S h dO dH dF obs hist fut pO pH pF hpO hpH hpF hlO hlH hlF hS hh hSL hr
+
+open Model.Isimip in
+/-- **ISIMIP month mode with detrending**, partial under the same restrictions -/
+theorem isimip_months_detrending_time_order_equivariant_partial (c : Cfg) (fam : IsiFamily) (o : Oracles) (d : Draws)
+    (hd : c.detrending = true)
+    (hl : (c.hasLowerBound && c.hasLowerThreshold) = false) (hu : (c.hasUpperBound && c.hasUpperThreshold) = false)
+    (mO mH mF : List Int) (obs hist fut : List Dated) (pO pH pF : List Nat)
+    (hpO : pO.Perm (List.range obs.length)) (hpH : pH.Perm (List.range hist.length))
+    (hpF : pF.Perm (List.range fut.length))
+    (hlO : mO.length = obs.length) (hlH : mH.length = hist.length) (hlF : mF.length = fut.length)
+    (hr : ∀ m ∈ mF, 1 ≤ m ∧ m ≤ 12)
+    (hnd : ∀ m ∈ Py.arange1 1 13, (detr c o.sigF (take fut (indicesIn mF [m]))).Nodup) :
+    (∃ out, applyLocationMonths (isimipWinFnD c fam o d) mO mH mF obs hist fut = .ok out ∧
+      applyLocationMonths (isimipWinFnD c fam o d) (take mO pO) (take mH pH) (take mF pF) (take obs pO) (take hist pH)
+        (take fut pF) = .ok (take out pF)) ∨
+    (∃ e, applyLocationMonths (isimipWinFnD c fam o d) mO mH mF obs hist fut = .error e ∧
+      applyLocationMonths (isimipWinFnD c fam o d) (take mO pO) (take mH pH) (take mF pF) (take obs pO) (take hist pH)
+        (take fut pF) = .error e) := by
+  let f' : WinFn Dated := fun ob h x _ _ _ => (isimipDCtx c fam o ob h x).map (fun m => x.map (isimipDG c o m x))
+  have hff : ∀ ob h x io ih ix, (detr c o.sigF x).Nodup → isimipWinFnD c fam o d ob h x io ih ix = f' ob h x io ih ix :=
+    fun ob h x io ih ix hx => isimip_window_detrending_pointwise c fam o d ob h x hd hl hu hx io ih ix
+  have hnd' : ∀ m ∈ Py.arange1 1 13, (detr c o.sigF (take (take fut pF) (indicesIn (take mF pF) [m]))).Nodup :=
+    fun m hm => (detr_perm c o.sigF (window_sample_perm fut mF _ pF hlF.symm hpF)).nodup_iff.mpr (hnd m hm)
+  rw [applyLocationMonths_congr_on _ f' _ hff mO mH mF obs hist fut hnd,
+    applyLocationMonths_congr_on _ f' _ hff _ _ _ _ _ _ hnd']
+  exact equivariance_months_E f' (isimipDCtx c fam o) (isimipDG c o) (fun _ _ _ _ _ _ => rfl) (isimipD_orderFree c fam o)
     mO mH mF obs hist fut pO pH pF hpO hpH hpF hlO hlH hlF hr
 
 /-! ## 10. The hypotheses are satisfiable (non-vacuity) -/
@@ -786,5 +934,23 @@ open Model.Isimip in
 example : let c : Cfg := { trendMethod := .additive, nonparametricQm := false, detrending := false }
     c.detrending = false ∧ (c.hasLowerBound && c.hasLowerThreshold) = false ∧
       (c.hasUpperBound && c.hasUpperThreshold) = false := by decide
+
+open Model.Isimip in
+/-- the configuration guards of the detrending theorem: ISIMIP's tas settings (detrending on, no bounds / thresholds) -/
+example : let c : Cfg := { trendMethod := .additive, nonparametricQm := false, detrending := true }
+    c.detrending = true ∧ (c.hasLowerBound && c.hasLowerThreshold) = false ∧
+      (c.hasUpperBound && c.hasUpperThreshold) = false := by decide
+
+open Model.Isimip in
+/-- the tie-free guard of the detrending theorem is satisfiable: when the trend of `cm_future` is not significant nothing
+    is removed, and the guard is tie-freeness of the future values of every window — implied by a tie-free series -/
+theorem detrended_windows_nodup_of_not_significant (c : Cfg) (o : Oracles) (hs : o.sigF = false) (L S : Int)
+    (dF : List Int) (fut : List Dated) (hnd : (fut.map Prod.fst).Nodup) :
+    ∀ cc ∈ useCenters S dF, (detr c o.sigF (take fut (idxWindow L dF cc))).Nodup := by
+  intro cc _
+  rw [hs, detr_not_significant, ← take_map']
+  exact take_nodup _ _ hnd (indicesIn_nodup dF _)
+
+example : ([((3 : Rat), (2001 : Int)), (1, 2001), (2, 2002)].map Prod.fst).Nodup := by decide +kernel
 
 end Props.C06
